@@ -794,6 +794,8 @@ class VM:
                 keys.extend(obj.keys())
             elif isinstance(obj, JSObject):
                 keys = obj.keys()
+            elif isinstance(obj, JSFunction):
+                keys = list(obj.properties.keys())
             else:
                 keys = []
             self.stack.append(ForInIterator(keys))
